@@ -18,9 +18,9 @@ ASSUMPTIONS = [
 def harnesses(tier, seed):
     hs = []
     k = 2 if tier == "quick" else 3
-    combos = [("lazy", "orjson"), ("postponed", "orjson")]
+    combos = [("lazy", "orjson"), ("postponed", "orjson"), ("lazy", "msgpack")]
     if tier != "quick":
-        combos += [("eager", "orjson"), ("lazy", "msgpack"), ("postponed", "msgpack")]
+        combos += [("eager", "orjson"), ("postponed", "msgpack")]
     small = tier == "quick"
     for mode, fmt in combos:
         kw = "k=%d, mode=%r, fmt=%r, small=%r" % (k, mode, fmt, small)
